@@ -125,4 +125,17 @@ PROPS = {
             {"name": "c16.traces", "pkg": CLA, "test": "TestVerifC16Traces", "shards_t": 16, "shards_q": 4, "crash_is_violation": True},
         ],
     },
+    "C12": {
+        "level": "fault_enumeration",
+        "technique": "fault enumeration (every single drop / duplication / adjacent swap per fragment train; connection reset after k bundles) + rapid multi-fault property tests; differential against an independent reference receiver and byte-identity of delivered bundles",
+        "level_text": "BBC: for each (bundle, MTU) the whole single-fault space is enumerated and random multi-fault patterns and interleaved transmissions are generated; the receiver is compared with an independent reference receiver of the link protocol and every delivery must be byte-identical. MTCP: generated bundle/keep-alive sequences over a real loopback connection must arrive identical and in order; a scripted peer resets the connection after k bundles and the next Send must fail and report PeerDisappeared.",
+        "level_note": "loss of the last fragment(s) and a duplicated one-fragment transmission cannot be detected by a receiver and are excluded from the 'signals failure' clause; a cut racing with a send is not decided; the rf95 modem needs hardware (only the Modem interface contract is exercised); loopback only",
+        "assumptions": ["modem MTU >= 3", "every received fragment owns its buffer"],
+        "units": [
+            {"name": "c12.mtcp-sequences", "pkg": MTCP, "test": "TestVerifC12MTCPSequences", "shards_t": 8, "shards_q": 2},
+            {"name": "c12.mtcp-cut", "pkg": MTCP, "test": "TestVerifC12MTCPCut"},
+            {"name": "c12.bbc-singles", "pkg": BBC, "test": "TestVerifC12BBCSingles", "shards_t": 8},
+            {"name": "c12.bbc-multi", "pkg": BBC, "test": "TestVerifC12BBCMulti", "shards_t": 8},
+        ],
+    },
 }
